@@ -75,7 +75,10 @@ theorem src_deleteFiles_expected : src_deleteFiles = "{ for _, f := range files 
 
 theorem src_removeFile_expected : src_removeFile = "{ if f.Inuse() { if err := f.Rename(f.Path() + tmpFileSuffix); err != nil { return } nodeTableStoreGC.Add(f) return } err := f.Remove() if err != nil { nodeTableStoreGC.Add(f) return } }" := by rfl
 
-theorem returns_readCompactLogFile_expected : returns_readCompactLogFile = ["err", "ErrDirtyLog", "err", "err", "ErrDirtyLog", "err", "nil"] := by rfl
+/-- stat error; too short → dirty; open error; read error; no trailer → dirty; body does not
+parse → dirty (repaired in /repo aaf561b: it was a hard error that made the shard refuse to
+open); complete. -/
+theorem returns_readCompactLogFile_expected : returns_readCompactLogFile = ["err", "ErrDirtyLog", "err", "err", "ErrDirtyLog", "ErrDirtyLog", "nil"] := by rfl
 
 theorem loaderSwitch_expected : loaderSwitch = [
   ("tsspFileSuffix", "fl.loadTsspFile(filepath.Join(dir, itemName), mst, isOrder, false)"),
